@@ -40,6 +40,14 @@ def translate_base_percent_point(path):
             if ast.unparse(n.func) == 'self.partial_derivative_scalar' and len(n.args) == 2 and not n.keywords:
                 return f'(h {self.e(n.args[0])} {self.e(n.args[1])})'
             return super().call(n)
+
+        def e(self, n):
+            # np.ravel(<lane expr>)[0]: extraction of the scalar from a one-element array = identity on the lane value
+            if isinstance(n, ast.Subscript) and isinstance(n.slice, ast.Constant) and n.slice.value == 0 \
+                    and isinstance(n.value, ast.Call) and ast.unparse(n.value.func) == 'np.ravel' \
+                    and len(n.value.args) == 1 and not n.value.keywords:
+                return self.e(n.value.args[0])
+            return super().e(n)
     x = X(sc)
     obj = x.e(fdef.body[0].value)
     call = lb[1]
